@@ -15,6 +15,8 @@ def programs(rng, n):
                              # array built-ins on arrays of the (possibly shared) input, with differing second arguments
                              '$append(nums, [1])', '$append(nums, [2, 3])', '$append(nums, n)', '$append(list, {"x": n})', '$append(nums, nums)', '$append(list.s, a)', '$reverse(nums)', '$sort(nums, function($l, $r){$l < $r})',
                              '$zip(nums, list.v)', '$distinct($append(nums, nums))', '$append($append(nums, 7), 8)', '$reduce(nums, $append)', '$map(list, function($o){$append($o.s, n)})', 'nums[[0, -1]]', '[nums, nums]',
+                             # the random built-ins (order- and value-insensitive observations)
+                             '$count($shuffle(nums))', '$sort($shuffle(nums)) = $sort(nums)', '($r := $random(); $r >= 0 and $r < 1)', '$count($shuffle(list))', '$sum($shuffle(nums)) = $sum(nums)', '[$random() < 1, $random() < 1, $random() < 1]',
                              # one instant per evaluation
                              '($t0 := $millis(); $w := $sum($map([1..300], function($i){$i * 2})); $t1 := $millis(); $t0 = $t1)', '($n0 := $now(); $w := $join($map([1..200], $string)); $n0 = $now())',
                              '[$millis() = $millis(), $now() = $now(), $toMillis($now()) = $millis()]',
